@@ -51,8 +51,11 @@ def cases(draw, exhaustive=False):
     genes = [g["id"] for g in spec["genes"]]
     # some reactions are closed already
     for r in spec["rxns"]:
-        if draw(st.integers(0, 9)) == 0:
+        k = draw(st.integers(0, 9))
+        if k == 0:
             r["lb"], r["ub"] = 0, 0
+        elif k == 1:  # flux pinned to a non-zero value: still knocked out like any other reaction
+            r["lb"] = r["ub"] = draw(st.sampled_from([2, 5, -3, 0.5]))
     order = draw(st.permutations(genes)) if genes else []
     k = draw(st.integers(0, len(order)))
     return {
